@@ -47,6 +47,9 @@ def _check_row(tb):
     rets = [e for e in evs if e.kind == "RET"]
     gotos = [e for e in evs if e.kind == "GOTO"]
     instates = tb.get("INSTATES")
+    leaves = tb.get("LEAVES")
+    if leaves is True and tb.get("NOOVERRIDE") is True:
+        return row, []       # infeasible: the flag is only set for an action whose override mode is not NONE (check_leaves_flag)
 
     # --- common to all rows: the state store comes first, operand is the transition's target ---
     if instates is True:
@@ -89,6 +92,10 @@ def _check_row(tb):
         if instates is True:
             if not gotos or gotos[-1].a not in ("fall", "repeatswitch") or evs[-1].kind != "GOTO":
                 probs.append("fallthrough to a machine state does not end in goto fall_N / repeatswitch")
+        elif leaves is True:
+            # the own target is gone but an action may have sent the machine to a live state: re-dispatch from wherever it is
+            if not gotos or gotos[-1].a != "repeatswitch" or evs[-1].kind != "GOTO" or any(g.a in ("fall", "jpto") for g in gotos):
+                probs.append("fallthrough whose own target is gone but whose actions may leave elsewhere must end in goto repeatswitch")
         elif instates is False:
             if gotos or kinds[-1] != "FALL_TERMINATE":
                 probs.append("fallthrough to a pruned target must only terminate")
@@ -124,6 +131,8 @@ def _check_row(tb):
                 probs.append("end compare must return OK")
             if not gotos or evs[-1].kind != "GOTO" or gotos[-1].a not in ("jpto", "repeatswitch") or i_rel > len(evs) - 2:
                 probs.append("consuming path must end: reload, then goto jpto_N / repeatswitch")
+            if instates is False and any(g.a in ("fall", "jpto") for g in gotos):
+                probs.append("direct jump to a target that is not a machine state")
         if any(r.a != "OK" for r in rets) or len(rets) != 1:
             probs.append("consuming path may only return OK, once, at the end compare")
     elif row == "terminating":
@@ -135,3 +144,44 @@ def _check_row(tb):
     else:
         probs.append("path could not be classified (immediate_done never evaluated on a non-fallthrough path)")
     return row, probs
+
+
+def check_leaves_flag(model):
+    """The meaning tmpl.ROLE 'LEAVES' relies on: in _generate_transition_body the flag starts False and is set True in the action loop exactly for an
+    emitted action whose override mode is MAY_GOTO_TARGET or ALWAYS_GOTO_OTHER; the loop ends (break) after an action whose mode is
+    ALWAYS_GOTO_OTHER or ALWAYS_GOTO_UNDEFINED. Returns (has_flag, problems)."""
+    import ast
+    fn = model.func("CodegenCtx._generate_transition_body")
+    assigns = [n for n in ast.walk(fn) if isinstance(n, ast.Assign) and len(n.targets) == 1 and isinstance(n.targets[0], ast.Name) and n.targets[0].id == "leaves_for_elsewhere"]
+    if not assigns:
+        return False, []
+    probs = []
+    loop = next((n for n in fn.body if isinstance(n, ast.For) and ast.unparse(n.iter) == "transition.actions"), None)
+    if loop is None:
+        return True, ["action loop not found at the top level of _generate_transition_body"]
+    init = [a for a in assigns if a in fn.body]
+    if len(init) != 1 or ast.unparse(init[0].value) != "False" or fn.body.index(init[0]) > fn.body.index(loop):
+        probs.append("leaves_for_elsewhere is not initialised to False before the action loop")
+    inloop = [a for a in assigns if a not in fn.body]
+    ifs = [n for n in loop.body if isinstance(n, ast.If)]
+    sets = [i for i in ifs if any(a in i.body for a in inloop)]
+    if len(inloop) != 1 or len(sets) != 1 or ast.unparse(inloop[0].value) != "True" or \
+            ast.unparse(sets[0].test) != "action.get_target_override_mode() in [ActionOverrideMode.MAY_GOTO_TARGET, ActionOverrideMode.ALWAYS_GOTO_OTHER]":
+        probs.append("leaves_for_elsewhere is not set exactly for an emitted action whose mode is MAY_GOTO_TARGET / ALWAYS_GOTO_OTHER")
+    return True, probs
+
+
+def action_loop_stop_modes(model):
+    """override modes after which the emitter stops rendering a transition's actions (set of names), from the `break` guard of its action loop"""
+    import ast, re
+    fn = model.func("CodegenCtx._generate_transition_body")
+    loop = next((n for n in fn.body if isinstance(n, ast.For) and ast.unparse(n.iter) == "transition.actions"), None)
+    if loop is None:
+        return None
+    out = set()
+    for i in loop.body:
+        if isinstance(i, ast.If) and i.body and isinstance(i.body[-1], ast.Break) and ast.unparse(i.test).startswith("action.get_target_override_mode() in"):
+            emitted_before = loop.body.index(i) > next((k for k, st in enumerate(loop.body) if "_generate_action_implementation" in ast.unparse(st)), 10 ** 6)
+            if emitted_before:
+                out |= set(re.findall(r"ActionOverrideMode\.(\w+)", ast.unparse(i.test)))
+    return out
